@@ -47,7 +47,7 @@ REDUCED_PRECISION_TRIAGED = {
 
 def run(repo, res, tier):
     res.rules = ["(a) return degree per class", "(b) homogeneous comparisons/masks", "(c) no length+-literal, dimensionless transcendental args",
-                 f"(d) |length exponent| <= {MAX_EXP}", "(e) no decimal rounding of dimensional data", "(f) no reduced-precision casts on the numerical path"]
+                 f"(d) |length exponent| <= {MAX_EXP}", "(e) no decimal rounding of dimensional data", "(f) no reduced-precision casts on the numerical path", "(g) no absolute thresholds on field values in the wrapper"]
     results = dim_rules.run_fields()
     geom = dim_rules.run_geometry()
     res.require(len(results) >= 40, f"only {len(results)} field-function runs (expected >= 40): registry anchors changed")
@@ -127,6 +127,20 @@ def run(repo, res, tier):
                 res.add(Finding("reduced-precision", m.rel, qn, c, "single/half precision on the numerical path: coordinates keep ~7 digits in absolute terms, so the "
                                 "result depends on the scale of the body relative to fixed offsets", c.lineno))
     res.analysed["reduced_precision_casts"] = n_cast
+    # (g) the wrapper between the field functions and the user (field_wrap_BH) applies no absolute threshold to field values: a comparison
+    #     of an array with a tiny float literal there is a floor / cut-off in tesla or A/m, which fields at large length factors (B ~ s^-3)
+    #     or weak excitations fall below
+    wm = repo.mod("magpylib._src.fields.field_wrap_BH")
+    n_thr = 0
+    for q, fn in wm.funcs.items():
+        for c in ast.walk(fn):
+            if isinstance(c, ast.Compare) and len(c.ops) == 1 and isinstance(c.ops[0], (ast.Lt, ast.LtE, ast.Gt, ast.GtE)):
+                for side in (c.left, c.comparators[0]):
+                    if isinstance(side, ast.Constant) and isinstance(side.value, float) and 0 < abs(side.value) < 1e-3:
+                        n_thr += 1
+                        res.add(Finding("abs-threshold", wm.rel, q, c, f"field values are compared with the absolute constant {side.value!r} in the level-2 wrapper: results "
+                                        "below it are altered, which depends on the unit / scale of the problem", c.lineno))
+    res.ob("(g):no absolute thresholds on field values in field_wrap_BH", n_thr == 0, {"rule": "(g)", "instances": n_thr}, nontrivial=False)
     res.analysed.update({"field_function_runs": len(results), "geometry_helper_runs": len(geom), "dim_findings_distinct": n_find})
     res.assumptions = sorted(set(res.assumptions))
     res.assumptions += ["declared parameter dimensions (dim_rules.PARAM_DIM) are the specification",
